@@ -322,6 +322,10 @@ Definition handle (s : node) (src cid : Z) (m : cellmsg) (ls : list Z) : node * 
       match aget ident (creates s) with
       | Some cc =>
           let s1 := set_creates (adel ident (creates s)) s in
+          (* a created for an id that already has a relay route (the stale answer of a node the originator
+             replaced, arriving while the old exit socket awaits its delayed removal) is refused *)
+          if ahas (cc_from cc) (relays s1) then (s1, [], ls)
+          else
           match aget (cc_from cc) (exits s1) with
           | None => (s1, [], ls)
           | Some _ =>
